@@ -6,8 +6,10 @@ package main
 import (
 	"encoding/json"
 	"fmt"
+	"math"
 	"os"
 	"runtime"
+	"strconv"
 	"sync"
 	"unsafe"
 )
@@ -188,3 +190,61 @@ func vFmtInt(k int, s string) uint64 {
 	panic(vSkip{"vFmtInt: no such integer"})
 }
 func vTokOperand(k int) uint64 { panic(vSkip{"vTokOperand has no native counterpart"}) }
+
+// token bookkeeping of the symbolic build; natively the rendered string itself is parsed
+func vTokMark() int { return 0 }
+func vStrToks(s string) ([]string, bool) {
+	if len(s) < 2 || s[0] != '[' || s[len(s)-1] != ']' {
+		return nil, false
+	}
+	body := s[1 : len(s)-1]
+	var toks []string
+	for len(body) > 0 {
+		j := 0
+		for j < len(body) && !(j+1 < len(body) && body[j] == ',' && body[j+1] == ' ') {
+			j++
+		}
+		toks = append(toks, body[:j])
+		if j >= len(body) {
+			break
+		}
+		body = body[j+2:]
+	}
+	return toks, true
+}
+
+// vStrTokCount: number of tokens in "[t0, t1, ...]"
+func vStrTokCount(s string, mark int) int {
+	toks, ok := vStrToks(s)
+	if !ok {
+		return -1
+	}
+	return len(toks)
+}
+
+// vStrTokIs: s is "[t0, t1, ...]"; token i renders val as kind 1 signed / 2 unsigned decimal,
+// 3 float32 / 6 float64 (val = Float64bits of the float64 handed to strconv), 4 bool
+func vStrTokIs(s string, mark, i, kind int, val uint64) bool {
+	toks, ok := vStrToks(s)
+	if !ok {
+		return false
+	}
+	if i >= len(toks) {
+		return false
+	}
+	t := toks[i]
+	switch kind {
+	case 1:
+		return t == fmt.Sprintf("%d", int64(val))
+	case 2:
+		return t == fmt.Sprintf("%d", val)
+	case 4:
+		return t == fmt.Sprintf("%v", val != 0)
+	}
+	case 3:
+		return t == strconv.FormatFloat(math.Float64frombits(val), 'g', -1, 32)
+	case 6:
+		return t == strconv.FormatFloat(math.Float64frombits(val), 'g', -1, 64)
+	}
+	panic(vSkip{"vStrTokIs: unknown kind"})
+}
